@@ -10,6 +10,14 @@ LEX = ["'", '"', '`', '´', '$', '$a$', '--', '# ', '/*', '*/', '+', '\n', '\r',
        '\\', 'a', '_', '1', '0', 'x', 'e', '.', '-', ':', '=', '?', '%s', '@', '#', '[', ']', '(',
        ')', ';', ',', 'é', '×', '\x00', '\ud800', '*', '<', '|', 'E']
 
+# code points that Python str methods, codecs and text tooling treat specially although the
+# lexer's regex atoms do not distinguish them (the class partition of 2.1 is valid for the regex
+# layer only) - crossed with a few structural fragments
+SPC = ['\ufeff', '\u200b', '\u2060', '\xa0', '\u2028', '\u2029', '\x85', '\x1c', '\x1f', '\x0b', '\x0c',
+       '\xad', '\ufffd', '\ufffe', '\U0010ffff', '\U0001f600', '\u0301', 'ß', 'ſ', 'İ', 'ı', '\u212a',
+       'ﬁ', 'ａ', '（', '；', '＇', '٣', '²', '\u3000', '\u180e', '\x00', '\x7f', '\ud800', '\udfff',
+       '\r', '\n', ' ', '\t', 'a', '1', ';', "'", '"', '(', ')', '-', '#', '.', 'go']
+
 # structural fragments (C02-C04, C07, C09)
 U = ['a', 'b', '1', "'s'", '"q"', ' ', '\n', '\r\n', '\t', '\x0c', ' ', ',', ';', '(', ')',
      '[', ']', '.', '*', '=', '+', '::', ':=', '--c\n', '/*c*/', 'select', 'from', 'where', 'and',
@@ -38,6 +46,11 @@ D = {
            'end if', 'case', 'for', 'while', 'loop', 'end loop', '(', ')', '--c\n', '/*c*/', '\n',
            'select', '1', 'create or replace', 'procedure', 'as', '$$a;b$$', "';'"],
 }
+
+
+# split-relevant tokens only (statement-boundary automaton, C04/C05): long sequences are cheap here
+SPL = [';', 'create', 'begin', 'end', 'declare', 'a', '(', ')', 'if', 'case', 'for', 'go', '\n',
+       '--c\n', '/*c*/', 'end if']
 
 
 def count(alpha, max_len):
